@@ -173,14 +173,6 @@ func peek(input OmegaInput) (output OmegaOutput) {
 
 	n, o, s, z := input.VM.Registers[7], input.VM.Registers[8], input.VM.Registers[9], input.VM.Registers[10]
 
-	if z == 0 {
-		input.VM.Registers[7] = OK
-		return OmegaOutput{
-			ExitReason: ExitContinue,
-			Addition:   input.Addition,
-		}
-	}
-
 	// z = offset
 	if !isWriteable(o, z, *input.VM.Memory) { // not writeable, return
 		input.VM.Registers[7] = OOB
@@ -248,10 +240,10 @@ func poke(input OmegaInput) (output OmegaOutput) {
 	}
 
 	// otherwise if N_o...+z not subset of \mathbf{V}_m[n]_u
-	if !isWriteable(o, z, input.Addition.IntegratedPVMMap[n].Memory) { // not writeable, return
+	if !isWriteable(o, z, input.Addition.IntegratedPVMMap[n].Memory) { // not writeable: OOB, execution continues
 		input.VM.Registers[7] = OOB
 		return OmegaOutput{
-			ExitReason: ExitPanic,
+			ExitReason: ExitContinue,
 			Addition:   input.Addition,
 		}
 	}
